@@ -14,7 +14,7 @@
 #include <fcntl.h>
 #include <net/if.h>
 #include <netinet/in.h>
-#include <netinet/tcp.h>
+#include <linux/tcp.h>
 #include <poll.h>
 #include <sched.h>
 #include <string>
@@ -54,21 +54,58 @@ inline int tcp_bound_socket(int port, int *out_port) {           // SO_REUSEPORT
     return s;
 }
 
-struct Timeout {};
 static bool g_settle_timeout = false;
 
 inline double mono() { timespec ts; clock_gettime(CLOCK_MONOTONIC, &ts); return ts.tv_sec + ts.tv_nsec * 1e-9; }
 
-// Bounded wait until no TCP socket of this process has a handshake or unacknowledged data / FIN in flight.
-inline void settle(int maxfd = 256) {
+// TCP states (include/net/tcp_states.h)
+enum { ST_ESTABLISHED = 1, ST_SYN_SENT, ST_SYN_RECV, ST_FIN_WAIT1, ST_FIN_WAIT2, ST_TIME_WAIT, ST_CLOSE, ST_CLOSE_WAIT, ST_LAST_ACK, ST_LISTEN, ST_CLOSING };
+
+struct SockView { int fd; int state; unsigned lport, rport; unsigned long long sent, received, notsent; };
+
+inline int tcp_sockets(SockView *v, int cap, int maxfd = 256) {
+    int n = 0, closed_run = 0;
+    for (int fd = 3; fd < maxfd && closed_run < 24 && n < cap; ++fd) {              // descriptors are allocated lowest first
+        struct tcp_info ti; socklen_t len = sizeof ti; memset(&ti, 0, sizeof ti);
+        if (getsockopt(fd, IPPROTO_TCP, TCP_INFO, &ti, &len) != 0) {                 // not a TCP socket / not open
+            if (errno == EBADF) ++closed_run; else closed_run = 0;
+            continue;
+        }
+        closed_run = 0;
+        sockaddr_in a; socklen_t al = sizeof a; memset(&a, 0, sizeof a);
+        SockView s; s.fd = fd; s.state = ti.tcpi_state; s.lport = s.rport = 0;
+        if (getsockname(fd, (sockaddr *)&a, &al) == 0) s.lport = ntohs(a.sin_port);
+        al = sizeof a;
+        if (getpeername(fd, (sockaddr *)&a, &al) == 0) s.rport = ntohs(a.sin_port);
+        s.sent = ti.tcpi_bytes_sent; s.received = ti.tcpi_bytes_received; s.notsent = ti.tcpi_notsent_bytes;
+        v[n++] = s;
+    }
+    return n;
+}
+inline bool sent_fin(int st) { return st == ST_FIN_WAIT1 || st == ST_FIN_WAIT2 || st == ST_CLOSING || st == ST_LAST_ACK || st == ST_TIME_WAIT; }
+inline bool got_fin(int st) { return st == ST_CLOSE_WAIT || st == ST_LAST_ACK || st == ST_CLOSING || st == ST_TIME_WAIT || st == ST_CLOSE; }
+
+// Bounded wait until no TCP socket of this process is in the middle of a handshake.
+// With pairs: ... and until everything one end of a loopback connection has sent (bytes, end of stream) has arrived at the
+// other end; an end whose other end is not open in this process must have seen the end of the stream (each_spin accepts the
+// connections that are still in a listener's queue).  Acknowledgements are not waited for: the kernel delays them.
+inline void settle(bool pairs = true, void (*each_spin)() = nullptr) {
     double t0 = mono();
     for (int spin = 0;; ++spin) {
+        if (each_spin) each_spin();                                                   // e.g. accept what has arrived meanwhile
+        SockView v[64];
+        int n = tcp_sockets(v, 64);
         bool busy = false;
-        for (int fd = 3; fd < maxfd && !busy; ++fd) {
-            tcp_info ti; socklen_t n = sizeof ti; memset(&ti, 0, sizeof ti);
-            if (getsockopt(fd, IPPROTO_TCP, TCP_INFO, &ti, &n) != 0) continue;          // not a TCP socket / not open
-            if (ti.tcpi_state == TCP_SYN_SENT || ti.tcpi_state == TCP_SYN_RECV) busy = true;
-            else if (ti.tcpi_state != TCP_LISTEN && ti.tcpi_state != TCP_CLOSE && ti.tcpi_unacked > 0) busy = true;
+        for (int i = 0; i < n && !busy; ++i) {
+            const SockView &a = v[i];
+            if (a.state == ST_SYN_SENT || a.state == ST_SYN_RECV) { busy = true; break; }
+            if (!pairs || a.state == ST_LISTEN || a.state == ST_CLOSE || a.rport == 0) continue;
+            const SockView *b = nullptr;
+            for (int j = 0; j < n; ++j) if (j != i && v[j].lport == a.rport && v[j].rport == a.lport) b = &v[j];
+            if (b) {
+                if (a.notsent > 0 || b->received < a.sent) busy = true;
+                else if (sent_fin(a.state) && !got_fin(b->state)) busy = true;
+            } else if (!got_fin(a.state)) busy = true;
         }
         if (!busy) return;
         if (mono() - t0 > 20.0) { g_settle_timeout = true; return; }
@@ -97,7 +134,7 @@ inline int tcp_connect(int port) {                               // nonblocking;
     sockaddr_in a; memset(&a, 0, sizeof a); a.sin_family = AF_INET; a.sin_port = htons(port); a.sin_addr.s_addr = htonl(INADDR_LOOPBACK);
     int r = connect(s, (sockaddr *)&a, sizeof a);
     if (r != 0 && errno != EINPROGRESS) { close(s); return -1; }
-    settle();
+    settle(false);
     int e = 0; socklen_t n = sizeof e; getsockopt(s, SOL_SOCKET, SO_ERROR, &e, &n);
     if (e != 0) { close(s); return -1; }
     return s;
